@@ -156,9 +156,22 @@ func (o *OracleC05) After(x *Exec, op *Op, res *Res) {
 		// leave: following the module's own "have N" hints must lead to an accepted amount
 		// within tolerance of the position's exact value.
 		refusal := strings.Contains(msg, "insufficient delegation shares") || strings.Contains(msg, "insufficient tokens") || strings.Contains(msg, "negative coin amount")
-		regime := new(big.Rat).Sub(assetTol(s, s, d.Denom), big.NewRat(2, 1))
+		regime := roundTripRegime(s, d)
 		over := new(big.Rat).SetInt(bal.BigInt()).Cmp(s.PosValue(d)) > 0
 		if refusal && (over || regime.Cmp(big.NewRat(1, 10)) >= 0) {
+			// tokens per delegator share on this validator: after a concentration of value by
+			// heavy slashing (factor g >= 8) the 18-digit shares-per-token ratio has so few
+			// digits that only chunks below ~1/tps of a position pass; the lock detector below
+			// is meaningful for tps <= 8 only (it tries chunks of 8-10%)
+			tps := new(big.Rat)
+			if tds, ok := s.Vals[d.V].DelShares[d.Denom]; ok && tds.IsPositive() {
+				tps.Quo(s.ValTokens(d.V, d.Denom), decRat(tds))
+			}
+			if tps.Cmp(big.NewRat(8, 1)) > 0 {
+				x.KnownFinding("F-C20c")
+				x.Label("c05:exit-search-skipped-value-concentrated-by-slashing")
+				continue
+			}
 			exited, last := o.exitSearch(x, s, d, bal, msg, undel)
 			if !exited {
 				x.Fail("C05", "exit", "position %s (reported %s, exact value %s) cannot undelegate its balance nor any hinted amount: %s", d.Key(), bal, s.PosValue(d).FloatString(3), last)
@@ -229,6 +242,23 @@ func (o *OracleC05) exitSearch(x *Exec, s *Snap, d DelSnap, bal math.Int, msg st
 			last = m2
 		}
 	}
+	// the rounding of shares/total at 18 digits makes acceptance of a given amount a matter of
+	// which way that rounding falls; amounts around a tenth of the position pass roughly
+	// every other time — try many distinct ones before calling the position locked
+	step := ratFloor(new(big.Rat).Mul(v, big.NewRat(1, 1_000_003)))
+	step.Add(step, big.NewInt(7919))
+	base := ratFloor(new(big.Rat).Mul(v, big.NewRat(8, 100)))
+	for k := int64(0); k < 60; k++ {
+		amt := new(big.Int).Add(base, new(big.Int).Mul(step, big.NewInt(k)))
+		if amt.Sign() <= 0 {
+			return true, ""
+		}
+		ok, m := undel(parseInt(amt.String()))
+		if ok {
+			return true, ""
+		}
+		last = m
+	}
 	return false, last
 }
 
@@ -281,10 +311,12 @@ func moduleSeesZeroValue(s *Snap, v int, denom string) bool {
 		if !ok {
 			vs = math.LegacyZeroDec()
 		}
+		var vt math.LegacyDec
 		if a.TotalValidatorShares.IsZero() {
-			continue
+			vt = math.LegacyNewDecFromInt(a.TotalTokens) // the module's convention when no shares are recorded
+		} else {
+			vt = vs.Quo(a.TotalValidatorShares).MulInt(a.TotalTokens)
 		}
-		vt := vs.Quo(a.TotalValidatorShares).MulInt(a.TotalTokens)
 		if vt.IsZero() {
 			return true
 		}
